@@ -252,6 +252,24 @@ def _json_default(o: Any) -> Any:
     return repr(o)
 
 
+def host_leaks(table: Dict[str, Any]) -> List[str]:
+    """Names in a library-wide function table that are bound to a callable of the *host* (the
+    simulator's stub modules sim.*): a program's functions leaked out of that program.  (The table
+    itself may legitimately change, e.g. lazy registration of built-ins.)"""
+    out = []
+    for k, v in table.items():
+        mod = getattr(v, "__module__", None)
+        if not isinstance(mod, str):
+            mod = getattr(type(v), "__module__", "")
+        fn = getattr(v, "func", None)  # functools.partial
+        if mod.startswith("sim.") or (fn is not None and str(getattr(fn, "__module__", "")).startswith("sim.")):
+            out.append(k)
+        elif getattr(type(v), "__module__", "").startswith("sim.") or (
+                hasattr(v, "__self__") and getattr(type(v.__self__), "__module__", "").startswith("sim.")):
+            out.append(k)
+    return sorted(out)
+
+
 # --------------------------------------------------------------------------------------------
 # outcome fingerprints
 
